@@ -76,11 +76,13 @@ def array(eng, src, kind, dt):
     if kind is None:
         ks = {kind_of(x) for x in flat}
         kind = "real" if "real" in ks else ("int" if "int" in ks else ("bool" if ks == {"bool"} else "real"))
-    flat = [cast(eng, x, kind) for x in flat]
+    flat = [cast(eng, x, kind, dt, getattr(src, "dtype", None)) for x in flat]
     return NArr(shape, flat, kind, dt)
 
 
-def cast(eng, x, kind):
+def cast(eng, x, kind, dt=None, src_dt=None):
+    """x converted to `kind`; dt / src_dt: the numpy dtypes of target and source when the caller knows them (a symbolic float is converted to an
+    integer dtype by the cast model of ext_C05_frame: truncation toward zero inside the target range)"""
     k = kind_of(x)
     if k == kind:
         return x
@@ -90,7 +92,15 @@ def cast(eng, x, kind):
         return Sym(to_z3(x, "int"), "int") if isinstance(x, Sym) else int(x)
     if kind == "int" and k == "real":
         if isinstance(x, Sym):
-            raise Unsupported("real -> int cast of a symbolic value")
+            if dt is None:
+                raise Unsupported("real -> int cast of a symbolic value")
+            from .ext_C05_frame import cast_fn
+
+            try:
+                sd, dd = np.dtype(src_dt) if src_dt is not None else np.dtype("float64"), np.dtype(dt)
+            except TypeError:
+                raise Unsupported("real -> int cast of a symbolic value (dtype not understood)")
+            return Sym(cast_fn(eng, sd, dd)(x.z), "int")
         return int(x)
     if kind == "bool":
         return eng.truth(x)
@@ -98,7 +108,7 @@ def cast(eng, x, kind):
 
 
 def astype(eng, a, kind, dt):
-    return NArr(a.shape, [cast(eng, x, kind) for x in a.items], kind, dt)
+    return NArr(a.shape, [cast(eng, x, kind, dt, a.dtype) for x in a.items], kind, dt)
 
 
 def _as_narr(eng, v):
